@@ -165,6 +165,7 @@ pub fn gen_case(rng: &mut Rng) -> Case {
     let tail_w = if rng.chance(1, 4) { 0.0 } else { rng.range(1, 1200) as f64 };
     let big = rng.chance(1, 12);
     let ascii_block = rng.chance(1, 4);
+    let reject_mode = rng.chance(1, 25);
     let mut glyphs = vec![];
     for g in 0..n {
         let mut width = if mono {
@@ -182,7 +183,14 @@ pub fn gen_case(rng: &mut Rng) -> Case {
         if rng.chance(1, 20) {
             width += 0.5;
         }
-        let height = if rng.chance(1, 2) { Some(rng.range(0, 2000) as f64) } else { None };
+        // rarely an advance the code must reject (944e88e): negative, or beyond u16 after rounding
+        if reject_mode && rng.chance(1, 6) {
+            width = *rng.pick(&[-1.0, -0.5, -0.75, 65535.5, 65536.0, 70000.0, 65535.25, -300.0]);
+        }
+        let mut height = if rng.chance(1, 2) { Some(rng.range(0, 2000) as f64) } else { None };
+        if reject_mode && rng.chance(1, 10) {
+            height = Some(*rng.pick(&[-1.0, 65535.5, 70000.0, 65535.0, -0.5]));
+        }
         let vorg = if rng.chance(1, 2) { Some(rng.range(-200, 1200) as f64) } else { None };
         let mut cps = vec![];
         let ncp = *rng.pick(&[0usize, 1, 1, 1, 2, 3]);
@@ -477,18 +485,20 @@ pub fn run_case(case: &Case) -> Vec<S> {
 }
 
 /// Directed cases: the points the theorems' hypotheses exclude, run on the real code every time.
-///  0  x_avg_char_width binary32 division: 257 x 16384 + 256 x 16385 (mean 16384.499 -> 16385)
-///  1  the same defect on a realistic CJK-like set: 19621 x 1000 + 1186 x 500 (mean 971.49998 -> 972)
+///  0  mean advance 16384.499 (257 x 16384 + 256 x 16385): the binary32 division used until d188b11 gave 16385
+///  1  the same on a realistic CJK-like set: 19621 x 1000 + 1186 x 500 (mean 971.49998, old code 972)
 ///  2  composite whose components are all empty glyphs (nbspace -> space): stored box (0,0,0,0) takes part
 ///     in hhea minima / head bbox
 ///  3  no codepoints at all: first/last char index = (0xFFFF, 0)
-///  4  unchecked u16 `+` in update_composite_limits: doubling chain, 4 * 2^14 points at depth 14 (C19)
-///  5  unchecked i16 `-` in vertical_metrics: vertical_origin - yMax = -40000 (C19)
-///  6  `as u16` on a point count of 65536 in MaxBuilder::update (C19)
+///  4  doubling chain, 4 * 2^14 points at depth 14: rejected with OutOfBounds since 944e88e
+///     (before: unchecked u16 `+` in update_composite_limits)
+///  5  unchecked i16 `-` in vertical_metrics: vertical_origin - yMax = -40000 (still panics; C19)
+///  6  advance width -1: rejected with OutOfBounds since 944e88e (before: clamped to 0)
 ///  7  second side bearing clamp: advance 40000, xMax 100 (C19)
 ///  8  source-assigned Unicode range bit 200 (UFO openTypeOS2UnicodeRanges is a list of u8): index 6 of a
-///     4-word array in apply_unicode_range (C15)
-pub const N_DIRECTED: usize = 9;
+///     4-word array in apply_unicode_range (still panics; C15)
+///  9  explicit advance height 70000 in a vertical font: rejected with OutOfBounds since 944e88e
+pub const N_DIRECTED: usize = 10;
 
 fn tri(x: i16, y: i16) -> Shape {
     Shape::Simple(vec![vec![(x, y, true), (x + 100, y, true), (x, y + 100, true)]])
@@ -537,19 +547,16 @@ pub fn directed_case(i: usize) -> Case {
             c.vertical = true;
             c
         }
-        6 => {
-            // 8192 contours of 8 points = 65536 points
-            let mut cs = vec![];
-            for k in 0..8192i32 {
-                let (x, y) = (((k % 128) * 20) as i16, ((k / 128) * 20) as i16);
-                cs.push(vec![(x, y, true), (x + 5, y, true), (x + 10, y, true), (x + 10, y + 5, true), (x + 10, y + 10, true), (x + 5, y + 10, true), (x, y + 10, true), (x, y + 5, true)]);
-            }
-            base(vec![plain(500.0, vec![0x41], Shape::Simple(cs))])
-        }
+        6 => base(vec![plain(-1.0, vec![0x41], tri(0, 0))]),
         7 => base(vec![plain(40000.0, vec![0x41], tri(0, 0))]),
-        _ => {
+        8 => {
             let mut c = base(vec![plain(500.0, vec![0x41], tri(0, 0))]);
             c.assigned_ur = Some(vec![0, 200]);
+            c
+        }
+        _ => {
+            let mut c = base(vec![G { width: 500.0, height: Some(70000.0), vorg: Some(800.0), cps: vec![0x41], shape: tri(0, 0) }]);
+            c.vertical = true;
             c
         }
     }
